@@ -151,7 +151,7 @@ RP_GETTER_STUBS = ["max_aggregation_factor", "bit_length", "extension_degree", "
 def verifier_pieces(verify_fns, verify_stubs):
     return types() + RPT_ITEMS + [
         text("spec/tproto_trait.rs"), text("spec/sproto_trait.rs"), text("spec/spec_transcript.rs"), text("spec/spec_mask.rs"), text("spec/spec_wf.rs"),
-        text("spec/spec_verify.rs"),
+        text("spec/spec_verify.rs"), text("spec/spec_relation.rs"),
         fns("src/protocols/transcript_protocol.rs", TPROTO_HEADER, "TranscriptProtocol", stubs=TPROTO_FNS, impl_filter="impl TranscriptProtocol for Transcript"),
         fns("src/protocols/scalar_protocol.rs", SPROTO_HEADER, "ScalarProtocol", stubs=["random_not_zero", "from_hasher_blake2b"],
             impl_filter="impl ScalarProtocol for Scalar"),
@@ -216,4 +216,13 @@ UNITS["commit"] = {
     "contracts": ["ctors.vc", "gens.vc", "commit.vc"],
     "pieces": types() + [text("spec/spec_wf.rs"), text("spec/spec_prove.rs"), with_fns(PC_COMMIT, fns=["commit"])],
     "safety": {"*": ["C17", "C06"]},
+}
+
+UNITS["verify_rel"] = {
+    "prelude": PRELUDE_ALL,
+    "contracts": ["ctors.vc", "gens.vc", "transcripts.vc", "nonce.vc", "consistency.vc", "verify_safety.vc", "verify_relation.vc"],
+    "pieces": verifier_pieces(["verify"], ["verify_statements_and_generators_consistency", "a_decompressed", "a1_decompressed",
+                               "b_decompressed", "li_decompressed", "ri_decompressed"]),
+    "safety": {"*": ["C16"]},
+    "rlimit": 300,
 }
